@@ -427,7 +427,7 @@ def _zip_bytes():
     return b.getvalue()
 
 
-SP_KINDS = ["empty directory in a job", "a zip file among the job's data", "target path shares a string prefix with the importing project's workspace",
+SP_KINDS = ["(kind 5) the job with the EMPTY state point, alone and next to others, imported with a callable schema", "empty directory in a job", "a zip file among the job's data", "target path shares a string prefix with the importing project's workspace",
             "state point value with '..' segments", "path function that leaves the target"]
 ESC_U = [[{"a": "../../escaped"}, {"a": "y"}], [{"a": ".."}, {"a": "y"}], [{"a": "x/../../../up"}, {"a": "y"}]]
 
@@ -438,6 +438,8 @@ def _rt_special_case(kind, ti, njobs, var):
         src = signac.init_project(os.path.join(sc.root, "box", "src"))
         dst = signac.init_project(os.path.join(sc.root, "box", "dst"))
         sps = [{"a": i} for i in range(njobs)]
+        if kind == 5:
+            sps = [{}] if njobs == 1 else [{}, {"a": 1}]
         if kind == 3:
             sps = ESC_U[var % len(ESC_U)][:max(njobs, 2)]
         for i, sp in enumerate(sps):
@@ -460,6 +462,8 @@ def _rt_special_case(kind, ti, njobs, var):
         before_src = SL.snap(src.path)
         outside_before = SL.snap(sc.root)
         spec = None
+        if kind == 5 and njobs == 2:
+            spec = lambda job: "byid/" + job.id           # the empty state point has no automatic path next to other jobs
         if kind == 4:
             spec = [lambda job: os.path.join("..", "up", job.id), lambda job: os.path.join(sc.root, "abs", job.id), lambda job: os.path.join("ok", "..", "..", job.id)][var % 3]
         try:
@@ -475,7 +479,7 @@ def _rt_special_case(kind, ti, njobs, var):
         if SL.snap(src.path) != before_src:
             problems.append(("export changed the source project",))
         if not exported:
-            if kind in (0, 1, 2):
+            if kind in (0, 1, 2, 5):
                 problems.append(("export of an ordinary project raised", type(exc).__name__, str(exc)[:100]))
             elif ti == 0 and os.path.exists(target) and any(v is not None for v in SL.snap(target).values()):
                 problems.append(("export raised after copying job data",))
@@ -489,8 +493,15 @@ def _rt_special_case(kind, ti, njobs, var):
                 problems.append(("archive member names leave the archive root", bad[:3]))
                 return problems
         around_before = {k: v for k, v in SL.snap(sc.root).items() if not k.startswith("box/dst/")}
+        schema = None
+        if kind == 5 and ti == 0:
+            def schema(path):
+                fn = os.path.join(path, "signac_statepoint.json")
+                if os.path.isfile(fn):
+                    with open(fn) as f_:
+                        return json.load(f_)
         try:
-            dst.import_from(target)
+            dst.import_from(target, schema=schema)
         except Exception as e:  # noqa
             problems.append(("import of a successful export raised", type(e).__name__, str(e)[:100]))
             return problems
@@ -505,10 +516,10 @@ def _rt_special_case(kind, ti, njobs, var):
 
 
 def h_rt_special(kind: int, ti: int, njobs: int, var: int):
-    assert 0 <= kind <= 4 and 0 <= ti < 6 and 1 <= njobs <= 2 and 0 <= var <= 2 and part_ok(kind)
+    assert 0 <= kind <= 5 and 0 <= ti < 6 and 1 <= njobs <= 2 and 0 <= var <= 2 and part_ok(kind)
     assert tier() != "quick" or ti <= 3
     fresh_path()
-    kind, ti, njobs, var = ci(kind, 0, 4), ci(ti, 0, 5), ci(njobs, 1, 2), ci(var, 0, 2)
+    kind, ti, njobs, var = ci(kind, 0, 5), ci(ti, 0, 5), ci(njobs, 1, 2), ci(var, 0, 2)
     with nt():
         problems = _rt_special_case(kind, ti, njobs, var)
     reached()
@@ -522,7 +533,7 @@ IS_S = ["a/{a:int}", "a/{a:float}", "a/{a}", "a/{a:bool}"]
 IS_TYPES = [int, float, str, bool]
 
 
-def _import_schema_case(i, j, ti, sk, m):
+def _import_schema_case(i, j, ti, sk, m, spell=0):
     """export two jobs with automatic paths, import with a schema string or a callable schema: either the imported jobs are exact copies of
     source jobs (same id, state point, document, files) and check() passes, or the call raises and NO job has been copied"""
     problems = []
@@ -555,8 +566,14 @@ def _import_schema_case(i, j, ti, sk, m):
             matching = (m == i)
             if ti != 0:
                 return problems, "callable-needs-directory"
+        origin = target
+        if spell and ti == 0:
+            # the same directory, spelled differently by the caller
+            os.makedirs(os.path.join(os.path.dirname(target), "x"), exist_ok=True)
+            origin = [None, os.path.join(os.path.dirname(target), ".", os.path.basename(target)), os.path.join(os.path.dirname(target), "x", "..", os.path.basename(target)),
+                      target + os.sep][spell]
         try:
-            dst.import_from(target, schema=schema)
+            dst.import_from(origin, schema=schema)
             out = "ok"
         except Exception as e:  # noqa
             out = type(e).__name__
@@ -587,6 +604,9 @@ def h_import_schema(i: int, j: int, ti: int, sk: int, m: int):
     i, j, ti, sk, m = ci(i, 0, 5), ci(j, 0, 5), ci(ti, 0, 2), ci(sk, 0, 4), ci(m, 0, 5)
     with nt():
         problems, out = _import_schema_case(i, j, ti, sk, m)
+        if ti == 0 and (i, j) in ((0, 1), (2, 3)) and sk in (0, 1, 2):
+            for spell in (1, 2, 3):
+                problems += [("origin spelled differently (%d)" % spell,) + pr_ for pr_ in _import_schema_case(i, j, ti, sk, m, spell)[0]]
     reached()
     assert not problems
 
@@ -670,7 +690,7 @@ def h_import_foreign(ni: int, ti: int, sk: int):
 HARNESSES = [
     dict(name="h_roundtrip", timeout=(900, 3000), parts=(16, 32), unblock=True),
     dict(name="h_import_foreign", timeout=(300, 600), unblock=True),
-    dict(name="h_rt_special", timeout=(600, 1200), parts=(5, 5), unblock=True),
+    dict(name="h_rt_special", timeout=(600, 1200), parts=(6, 6), unblock=True),
     dict(name="h_import_schema", twin="h_import_schema__reach", timeout=(600, 1200), parts=(4, 4), unblock=True),
     dict(name="h_leafnode", twin="h_leafnode__reach", timeout=(600, 1500), parts=(16, 16)),
     dict(name="h_pathmap", twin="h_pathmap__reach", timeout=(400, 1500), parts=(14, 28), unblock=True),
